@@ -219,6 +219,23 @@ def run(chk):
                             fails.append((fn.__name__, m, 'leaves of %r are not the taxa' % nwk))
                         if any(len(nd.Children) != 2 for nd in t.iterNontips(include_self=True)):
                             fails.append((fn.__name__, m, 'non-binary internal node in %r' % nwk))
+                        if dist:
+                            # the branch lengths in the string are those of the tree matrix, written with two decimals:
+                            # root-to-leaf depths agree with the decoded tree matrix up to the rounding of each branch
+                            which = '_upgma' if fn is clustering.upgma else '_neighbor'
+                            kids, root = decode(reals[which][i], n)
+                            _, depths = clades_and_depths(kids, root, n)
+                            for leaf in t.tips():
+                                d_str, node, hops = 0.0, leaf, 0
+                                while node.Parent is not None:
+                                    d_str += float(node.Length or 0.0)
+                                    node = node.Parent
+                                    hops += 1
+                                want = depths[int(leaf.Name[1:])]
+                                if abs(d_str - want) > 0.005 * hops + 1e-9 * max(1.0, abs(want)):
+                                    fails.append((fn.__name__, m, 'depth of %s in the Newick string is %r, the tree matrix gives %r (%d branches written with two decimals)'
+                                                  % (leaf.Name, d_str, want, hops)))
+                                    break
                     except Exception as ex:  # noqa
                         fails.append((fn.__name__, m, 'Newick %r does not parse: %s' % (nwk, type(ex).__name__)))
     for idx, cladesG in gen_u:
